@@ -73,6 +73,20 @@ def run(m: Model, r: Report, tier: str) -> None:
     r.check(not conts, "R4", f"{hc.qualname}#no-continue", "the server loop must not `continue` without consuming input", loc=hc.loc)
     r.check(m.has(cr, "binascii.unhexlify(d)"), "R4", f"{cr.qualname}#eof-is-empty", "client EOF must surface as b''", loc=cr.loc)
 
+    # closing flushes: messages already accepted by write() are still delivered (graceful close + wait_closed, never abort)
+    n_cl = 0
+    for cq in ("gallia.transports.tcp.TCPTransport", "gallia.transports.unix.UnixTransport"):
+        cl = m.require_class(cq).methods.get("close")
+        if cl is None:
+            continue
+        n_cl += 1
+        calls_ = [ast.unparse(n.func) for n in ast.walk(cl.node) if isinstance(n, ast.Call)]
+        r.check("self.writer.close" in calls_ and "self.writer.wait_closed" in calls_ and not any(c.endswith(".abort") for c in calls_), "R3", f"{cl.qualname}#graceful-close",
+                f"close() calls {calls_}: it must close the stream writer gracefully and wait for it; abort() discards the messages still in the send buffer, "
+                "so the peer sees only a prefix of what was written", loc=cl.loc)
+    if n_cl < 2:
+        raise AnalysisError("stream transport close() functions not found")
+
     # ---------------------------------------------------------------- R6
     hr = m.require_function(f"{SRV}.UDSServerTransport.handle_request")
     forms = []
